@@ -45,7 +45,33 @@ EXPLANATION = ("Models: Model/Retro.v (wrappers, PlatePermutation, SampleSegrega
                "vector, so they hold for every oracle answer; only the per-plate hold-out counts need the numpy choice contract.  "
                "The models of Pairwise's last choice and of SparseCover refuse an answer outside the offered array (state-dependent "
                "contract, tag 94).  Not modelled: ids (only their order), logging, numpy copy semantics (in-place Plate.merge is "
-               "modelled functionally).")
+               "modelled functionally).  "
+               "SOURCE LINKS (C11_model_is_source_*): five whole functions of /repo are re-translated into Gallina on every run "
+               "(harness/py2gal.py, fail-closed; configurations C11_* / C13_* in harness/src_functions.py; output "
+               "Generated/SrcRetro.v) and Proofs/C11Source.v proves each translation equal to the hand-written model for all inputs: "
+               "RetrospectivePlateGenerator.generate_plates and RetrospectivePlateSmoother.smooth_plates (core.py; = wrap f for "
+               "EVERY inner f), MergeMinPlateSmoother._get_plate_sample_id and ._smooth_plates (the `while True` becomes recursion "
+               "on an explicit fuel parameter, Err 98 when it runs out; the link holds whenever fuel > number of experiments), and "
+               "create_plate_balanced_holdout_set_among_masked_plates.  A change of these functions changes the generated "
+               "definition: either the translator refuses it (build stops) or the linking proof no longer compiles (broken "
+               "obligation).  Loops, branches, `is None` checks, raises, break/continue, the comprehension, tuple returns and "
+               "integer arithmetic come from the translation.  TRUSTED there: the translator with its run-time library Lib/PyRt.v "
+               "(res_fold, res_while, res_filter, unwrap) and exactly these primitives (meanings in the last sections of "
+               "Model/Retro.v and Model/RetroHoldout.v; a Screen / ScreenSubset is its row list, a Plate its selection vector "
+               "into its parent screen, the rng / heappop answers are the stream `ds`): wrappers - screen.subset_unobserved() "
+               "and .subset_observed() (None when empty, else the unobserved / observed rows), subset.to_screen() (identity on "
+               "rows), a.combine(b) (construct (a ++ b)), self._generate_plates / self._smooth_plates(s, rng) (an ARBITRARY "
+               "function f s ds); MergeMin - self.min_size, screen.unique_sample_ids (sorted unique sample names), "
+               "screen.plates (selection vectors in sorted plate-name order), plate.unique_sample_ids, len(), a[0] (IndexError "
+               "= Err 92 on empty), plate.size, heapq.heapify (identity on the item list), heapq.heappush (append), "
+               "heapq.heappop (Model pop: the recorded answer, refused unless a smallest item), b.merge(a) (Model merge on the "
+               "parent current_screen), self._get_plate_sample_id (= the translated method on current_screen); hold-out - "
+               "`fraction < 0` (num < 0), `fraction > 1` (den < num), np.zeros(screen.size, dtype=bool), screen.plates, "
+               "np.arange(screen.size)[plate.selection_vector], plate.is_observed, plate.size, math.ceil(n * fraction) "
+               "(ceil_count: exact ceiling or the oracle value), rng.choice(a, n, replace=False) (the recorded answer, refused "
+               "unless of length n), selection_vector[i] = True (vor with vof_idx), and the two Screen(...) constructor calls "
+               "matched as whole expressions with all nine keyword arguments (rows not selected / rows selected marked "
+               "observed, then construct).  Not linked: MergeTopBottom, the other generators / smoothers, create_random_holdout.")
 
 
 def gen(rng, tier):
